@@ -127,7 +127,9 @@ def evaluate(h, meta, lines, tags, ans):
                 yield ("the directory could not be opened again after a fault", li, "ok", a, D12_SIG if fault_in_merge else None)
                 return
         elif tag[0] == "final-reopen":
-            if not a.startswith("ok"):
+            # the injected fault may hit the restart's own file creation: that open then fails (as it must) and the
+            # harness opens once more (`retry-ok`): the directory can still be opened
+            if not (a.startswith("ok") or (failed_calls and a.startswith("err") and "retry-ok" in a)):
                 yield ("the directory could not be opened after the faulty run", li, "ok", a, D12_SIG if fault_in_merge else None)
                 return
         elif tag[0] == "read":
